@@ -86,6 +86,8 @@ def generate(seed, tier):
     if fam == 'lis' and rng.chance(0.45):
         gen['small_pr'] = True           # > 100 physical records: the answer must not depend on size
         gen['frames'] = rng.pick([40, 120])
+    if fam == 'lis' and rng.chance(0.1):
+        gen['same_file_passes'] = True   # a logical file with two format specifications, each followed by its data records
     if fam == 'lis' and rng.chance(0.12):
         gen['tape_marks'] = True         # TIF-marked image of a tape with several logical files: a single tape mark behind each
     if fam == 'lis' and rng.chance(0.15):
